@@ -300,6 +300,18 @@ def _noop(*a, **k):
     return None
 
 
+def _log_conversion(pass_name, item_a, item_b):
+    """the real helper formats both items even when logging is off: keep that effect (an item whose __str__
+    raises makes the real assembler crash) for everything but byte blobs, whose text is one token per byte"""
+    for it in (item_a, item_b):
+        if builtins.type(it).__name__ != 'Blob':
+            '{}'.format(it)
+
+
+def _log_constant(pass_name, item, value):
+    '{} {}'.format(item, item.name)
+
+
 def _no_struct_class(*a, **k):
     raise EngineLimit('struct.Struct objects are not modelled')
 
@@ -317,8 +329,9 @@ def install(mod, vfs=None):
     mod.int = _int
     mod.eval = _eval
     mod.isinstance = _isinstance
-    mod.log_conversion = _noop
-    mod.log_constant = _noop
+    mod.log_conversion = _log_conversion
+    mod.log_constant = _log_constant
+
     mod.log = _NullLog()
     # names imported from the stubbed modules directly (from struct import pack, from ctypes import ...)
     for name, val in list(vars(mod).items()):
